@@ -117,19 +117,19 @@ Section Sem.
         | Call f, k =>
             match nth_error funcs f with
             | Some (Local fd) =>
-                match take_args (length (fparams fd)) k [] with
+                match take_args (List.length (fparams fd)) k [] with
                 | Some (args, k') =>
                     let frame := {| stack := []; locals := args ++ map zero_of (flocals fd); g := g s; p := p s; pstate := pstate s |} in
                     match exec fuel' (fbody fd) frame with
                     | Some s' =>
-                        continue {| stack := firstn (length (fresults fd)) (stack s') ++ k'; locals := locals s;
+                        continue {| stack := firstn (List.length (fresults fd)) (stack s') ++ k'; locals := locals s;
                                     g := g s'; p := p s'; pstate := pstate s' |}
                     | None => None
                     end
                 | None => None
                 end
             | Some (Import _ name params _) =>
-                match take_args (length params) k [] with
+                match take_args (List.length params) k [] with
                 | Some (args, k') =>
                     match oracle name args (p s) (pstate s) with
                     | Some (res, p', ps') => continue {| stack := rev res ++ k'; locals := locals s; g := g s; p := p'; pstate := ps' |}
